@@ -14,6 +14,7 @@ pub mod c07;
 pub mod c09;
 pub mod c10;
 pub mod c11;
+pub mod c12;
 pub mod c13;
 pub mod c15;
 pub mod c16;
@@ -39,6 +40,7 @@ pub fn run(ctx: &Ctx) -> bool {
         "C09" => c09::run(ctx),
         "C10" => c10::run(ctx),
         "C11" => c11::run(ctx),
+        "C12" => c12::run(ctx),
         "C13" => c13::run(ctx),
         "C15" => c15::run(ctx),
         "C16" => c16::run(ctx),
@@ -61,6 +63,7 @@ pub fn replay(ctx: &Ctx, id: &str, kind: &str, case: &J) -> Vec<Fail> {
         "C09" => c09::replay(ctx, kind, case),
         "C10" => c10::replay(ctx, kind, case),
         "C11" => c11::replay(ctx, kind, case),
+        "C12" => c12::replay(ctx, kind, case),
         "C13" => c13::replay(ctx, kind, case),
         "C15" => c15::replay(ctx, kind, case),
         "C16" => c16::replay(ctx, kind, case),
